@@ -112,12 +112,20 @@ let handle (p : string) : string =
     let (r, refm) = match proto with
       | "usbpro" -> run_proto proto u_recv u_init (fun s -> string_of_int (ust_i s.u_st)) ref_usb stream parts
       | "robe" -> run_proto proto r_recv r_init (fun s -> string_of_int (rst_i s.r_st)) ref_robe stream parts
-      | "opc" -> run_proto proto f_recv f_init (fun s -> string_of_int (int_of_n s.f_off)) ref_opc stream parts
+      | p when String.length p >= 3 && String.sub p 0 3 = "opc" ->
+        (* "opc" = every channel has a callback, "opc@-" = none, "opc@0,5,255" = those *)
+        let reg : n -> bool =
+          if p = "opc" then (fun _ -> true)
+          else if p = "opc@-" then (fun _ -> false)
+          else let l = List.map ios (String.split_on_char ',' (String.sub p 4 (String.length p - 4))) in
+            (fun ch -> List.mem (int_of_n ch) l) in
+        run_proto "opc" (f_recv reg) f_init (fun s -> string_of_int (int_of_n s.f_off)) (ref_opc reg) stream parts
       | "acn" -> run_proto proto a_recv a_init
                    (fun s -> if s.a_valid then Printf.sprintf "%d/%d"
                        (match s.a_st with A_PRE -> 0 | A_FLAGS -> 1 | A_LEN -> 2 | A_PDU -> 3) (int_of_n s.a_out)
                      else "X") ref_acn stream parts
       | _ -> ("bad-op", "-") in
-    r ^ ";class=" ^ classify proto stream refm (List.length parts)
+    let pc = if String.length proto > 3 && String.sub proto 0 4 = "opc@" then "opc-some-unregistered" else proto in
+    r ^ ";class=" ^ classify pc stream refm (List.length parts)
   | _ -> "bad-op"
 let () = vh_run handle
